@@ -66,7 +66,9 @@ def new_run():
          "by tests/core/test_schema_components.py); polars under SCHEMA_ONLY "
          "depth: a lazy coercion cast that fails when the plan is "
          "materialised (docs/source/polars.md: coercion without collect); "
-         "sample= larger than the frame passed (caller's argument error)"])
+         "sample= larger than the frame passed (caller's argument error), "
+         "also when strict='filter' removed every column of a polars frame "
+         "(no columns = no rows in polars)"])
 
 
 # ------------------------------------------------------------------ plumbing
